@@ -1368,6 +1368,8 @@ class Ex:
         it = self.ev(g.iter)
         if isinstance(it, VDict):
             it = VSet(it.dom, it.kty)
+        if isinstance(it, VOpaque) and it.kind in ("emptylist", "emptyset", "emptydict"):
+            it = []
         if isinstance(it, (tuple, list, frozenset)):
             out = []
             for x in it:
